@@ -261,6 +261,24 @@ impl Prop for PTime {
                     "a" => add(a, off("now_off")),
                     _ => add(rn, off("now_off")),
                 };
+                // optionally in a time zone whose daylight-saving time began two days ago: whole elapsed periods are about
+                // elapsed time, not about what the wall clock showed
+                let tz_before = std::env::var_os("TZ");
+                if plan.get("dst").and_then(|b| b.as_bool()).unwrap_or(false) {
+                    let days = rn.0.div_euclid(86400);
+                    // day of the year (0-based, leap days counted) from the civil-from-days algorithm
+                    let z = days + 719468;
+                    let era = z.div_euclid(146097);
+                    let doe = z.rem_euclid(146097);
+                    let yoe = (doe - doe / 1460 + doe / 36524 - doe / 146096) / 365;
+                    let doy_mar = doe - (365 * yoe + yoe / 4 - yoe / 100); // 0 = March 1
+                    let y = yoe + era * 400 + if doy_mar >= 306 { 1 } else { 0 };
+                    let leap = (y % 4 == 0 && y % 100 != 0) || y % 400 == 0;
+                    let doy = if doy_mar >= 306 { doy_mar - 306 } else { doy_mar + 59 + if leap { 1 } else { 0 } };
+                    let start = (doy - 2).rem_euclid(365);
+                    let end = (start + 200).rem_euclid(365);
+                    std::env::set_var("TZ", format!("XST0XDT,{},{}", start, end));
+                }
                 let mut res = vec![];
                 for t in arr(&input["tests"]) {
                     let args: Vec<String> = if t["t"] == "age" {
@@ -306,6 +324,10 @@ impl Prop for PTime {
                 if rall.panicked {
                     return json!({"panic": true, "args": all});
                 }
+                match &tz_before {
+                    Some(v) => std::env::set_var("TZ", v),
+                    None => std::env::remove_var("TZ"),
+                }
                 let together: Vec<Value> = rall.out.iter().map(|b| json!(*b == b'1')).collect();
                 let mut o = json!({"res": res, "together": together, "now": ts_json(now),
                        "ent": {"a": ts_json(a), "m": ts_json(m), "c": ts_json(c)}, "rf": {"a": ts_json(ra), "m": ts_json(rm), "c": ts_json(rc)}});
@@ -338,6 +360,7 @@ impl Prop for PTime {
         };
         let mut plan = json!({"ea": off(rng), "em": off(rng), "ra": off(rng), "rm": off(rng), "gap_us": rng.below(3) * 1500,
                           "now_rel": *rng.pick(&["real", "c", "m", "a", "c"]), "now_off": off(rng)});
+        plan["dst"] = json!(rng.chance(1, 3));
         if rng.chance(1, 6) {
             plan["selfref"] = json!(true);
         } else if rng.chance(1, 3) {
